@@ -60,6 +60,7 @@ def configurations(tier, seed):
         for h in hs:
             out.append((f"hash={h}", h, [k], "fwd"))
         out.append(("reverse-order", hs[0], [k], "rev"))
+        out.append(("further-instances-created-after-seeding", hs[0], [k], "fwd+instances"))
         other = ks[(ks.index(k) + 1) % len(ks)]
         out.append((f"after-seed-{other!r}", hs[0], [other, k], "fwd"))
     return out
@@ -137,7 +138,9 @@ def run(tier, seed):
                                    "seq_index": i, "a": [bh, bseeds, border], "b": [h, seeds, order],
                                    "tier": tier})
         else:
-            what = "enumeration-order" if label == "reverse-order" else "an-earlier-seed-in-the-same-process"
+            what = {"reverse-order": "enumeration-order",
+                    "further-instances-created-after-seeding": "further-instances-created-after-seeding"
+                    }.get(label, "an-earlier-seed-in-the-same-process")
             i = diff[0]
             members = sorted({show(terms[j]) for i2 in diff[:200] for j in seqs[i2]})
             acc.violation(f"C17|value-depends-on-{what}",
